@@ -224,6 +224,24 @@ def run(ck, F):
     if not ntree:
         ck.fail(R6, 'rb_tree::container', 'no instantiation of rb_tree::container has a user-provided destructor: the nodes of a table are never released', loc=places_loc(F))
 
+    # a node carved out of raw storage has every link written before it is used
+    R10 = ck.rule('C19.fresh-node-links-written', 'on every path of the owning tree\'s insert (explicit trees of 0, 1 and 3 nodes, every descent), '
+                  'the left, right and parent links of the node just allocated are written before the node is linked and re-balanced: no link '
+                  'is read from uninitialised storage (a stale pointer into a released block)', floor=3)
+    import c08
+    conts = sorted(n for n, r in F.rec.items() if r.get('template') == 'ipr::util::rb_tree::container'
+                   and {'find', 'insert'} <= {g['name'] for g in F.fns_in(n)})
+    if not conts:
+        raise AnalysisBroken('no instantiation of rb_tree::container with find and insert')
+    for n_nodes, problems, find0, insert0, _nd in c08.descent_check(F, conts[0]):
+        unwritten = [p_ for p_ in problems[0] if 'never written' in p_]
+        ck.check(R10, f'{contracts.short(conts[0])}/{n_nodes}-node tree', not unwritten, f'{conts[0]}: ' + '; '.join(unwritten), loc=insert0['loc'], fn=insert0['id'])
+
+    # positional access never reads past the elements of a sequence (the rule is C14's, instantiated for this property)
+    import c14
+    from symex import Sym as _Sym
+    c14.index_discipline(ck, F, _Sym(F, opaque=contracts.default_opaque(F), max_depth=48), c14.concrete_classes(F), rid='C19.index-discipline')
+
     # nothing that outlives a Lexicon refers to storage the Lexicon owns
     R9 = ck.rule('C19.no-static-alias-of-owned-storage', 'no object of static storage duration (namespace scope, static member, '
                  'function-local static) is bound at run time to storage owned by a Lexicon: each is constant-initialised, and no '
